@@ -20,86 +20,19 @@ Qed.
 Lemma eat_tok_same : forall t rest, eat_tok t (t :: rest) = inl rest.
 Proof. intros. unfold eat_tok. rewrite tok_eqb_refl. reflexivity. Qed.
 
-(* ------------------------------------------------------------------ programs outside the reach of F20 *)
-Definition nonempty_keys_op (o : op) : bool :=
-  match o with
-  | OGet _ k | OHas _ k => negb (is_nilb k)
-  | ODump keys => forallb (fun k => negb (is_nilb k)) keys
-  | _ => true
-  end.
-Definition no_empty_batch_op (o : op) : bool := match o with OSetValues _ [] => false | _ => true end.
-Definition flags_clear (a : sstate) : Prop := forall i, a_empty_batch (sctx a i) = false.
-
-Definition prog_safe (a : sstate) (ops : list op) : Prop :=
-  (flags_clear a /\ forallb no_empty_batch_op ops = true) \/ forallb nonempty_keys_op ops = true.
-
-Lemma safe_of_flags : forall a o, flags_clear a -> op_safe a o.
-Proof.
-  intros a o F. destruct o; cbn; try exact I; intros; right; apply F.
-Qed.
-
-Lemma safe_of_keys : forall a o, nonempty_keys_op o = true -> op_safe a o.
-Proof.
-  intros a o H. destruct o as [r k v | r b | r k | r k | r | keys | i j | r | k | k | | sp]; cbn in *; try exact I.
-  - left. destruct k; [discriminate | discriminate].
-  - left. destruct k; [discriminate | discriminate].
-  - intros i k _ Hk. left. rewrite forallb_forall in H. specialize (H k Hk). destruct k; [discriminate | discriminate].
-Qed.
-
-Lemma sctx_snoc : forall pool stk toks last x i,
-  sctx (mk_s (pool ++ [x]) stk toks last) i =
-  if Nat.ltb i (length pool) then nth i pool actx0 else if Nat.eqb i (length pool) then x else actx0.
-Proof.
-  intros. unfold sctx. cbn [s_pool]. destruct (Nat.ltb i (length pool)) eqn:L.
-  - apply app_nth1. lia.
-  - rewrite app_nth2 by lia. destruct (Nat.eqb i (length pool)) eqn:E.
-    + replace (i - length pool) with 0 by lia. reflexivity.
-    + destruct (i - length pool) as [|[|m]] eqn:D; [lia | reflexivity | reflexivity].
-Qed.
-
-Lemma flags_step : forall a o, flags_clear a -> no_empty_batch_op o = true -> flags_clear (fst (sstep a o)).
-Proof.
-  intros a o F N. destruct o as [r k v | r b | r k | r k | r | keys | i j | r | k | k | | sp];
-    cbn [sstep fst]; try exact F.
-  - intro i. rewrite sctx_snoc. destruct (Nat.ltb i (length (s_pool a))); [apply (F i)|].
-    destruct (Nat.eqb i (length (s_pool a))); [apply F | reflexivity].
-  - intro i. rewrite sctx_snoc. destruct (Nat.ltb i (length (s_pool a))); [apply (F i)|].
-    destruct (Nat.eqb i (length (s_pool a))); [|reflexivity]. cbn [a_empty_batch].
-    rewrite F. destruct b; [discriminate | reflexivity].
-  - destruct (nth k (s_toks a) SDead); try exact F;
-      destruct (sdetach (s_stack a) i) as [[stk b] kd]; exact F.
-  - destruct (nth k (s_toks a) SDead); try exact F;
-      destruct (sdetach (s_stack a) i) as [[stk b] kd]; exact F.
-  - intro i. rewrite sctx_snoc. destruct (Nat.ltb i (length (s_pool a))); [apply (F i)|].
-    destruct (Nat.eqb i (length (s_pool a))); [apply F | reflexivity].
-Qed.
-
 (* ------------------------------------------------------------------ a whole segment *)
-Lemma run_sim : forall ops t a rest, R t a -> prog_safe a ops ->
+Lemma run_sim : forall ops t a rest, R t a ->
   R (fst (run t ops)) (fst (check_ops a ops (snd (run t ops) ++ rest))) /\
-  snd (check_ops a ops (snd (run t ops) ++ rest)) = inl rest /\
-  (flags_clear a -> forallb no_empty_batch_op ops = true ->
-   flags_clear (fst (check_ops a ops (snd (run t ops) ++ rest)))).
+  snd (check_ops a ops (snd (run t ops) ++ rest)) = inl rest.
 Proof.
-  induction ops as [|o ops IH]; intros t a rest HR S.
-  - cbn. split; [exact HR | split; [reflexivity | tauto]].
-  - assert (So : op_safe a o).
-    { destruct S as [[F N]|K].
-      - apply safe_of_flags. exact F.
-      - apply safe_of_keys. cbn in K. apply andb_true_iff in K. tauto. }
-    destruct (step_sim t a o HR) as [HR1 O1]. specialize (O1 So).
-    assert (S1 : prog_safe (fst (sstep a o)) ops).
-    { destruct S as [[F N]|K].
-      - cbn in N. apply andb_true_iff in N. destruct N as [N1 N2]. left. split; [apply flags_step; assumption | exact N2].
-      - right. cbn in K. apply andb_true_iff in K. tauto. }
-    specialize (IH (fst (step t o)) (fst (sstep a o)) rest HR1 S1).
+  induction ops as [|o ops IH]; intros t a rest HR.
+  - cbn. split; [exact HR | reflexivity].
+  - destruct (step_sim t a o HR) as [HR1 O1].
+    specialize (IH (fst (step t o)) (fst (sstep a o)) rest HR1).
     cbn [run check_ops].
     destruct (step t o) as [t1 out] eqn:ST. destruct (sstep a o) as [a1 cs] eqn:SS. cbn [fst snd] in *.
     destruct (run t1 ops) as [t2 outs2] eqn:RN. cbn [fst snd] in *.
-    subst out. rewrite <- app_assoc. rewrite eat_outs. cbn [app]. rewrite eat_tok_same.
-    destruct IH as [I1 [I2 I3]]. split; [exact I1 | split; [exact I2|]].
-    intros F N. cbn in N. apply andb_true_iff in N. destruct N as [N1 N2].
-    apply I3; [|exact N2]. pose proof (flags_step a o F N1) as FS. rewrite SS in FS. exact FS.
+    subst out. rewrite <- app_assoc. rewrite eat_outs. cbn [app]. rewrite eat_tok_same. exact IH.
 Qed.
 
 (* ------------------------------------------------------------------ revealing the stack *)
@@ -154,26 +87,17 @@ Proof.
     destruct (nth k (t_toks t) TDead), (nth k (s_toks a) SDead); cbn in *; tauto.
 Qed.
 
-Lemma flags_same_pool : forall a b, s_pool a = s_pool b -> flags_clear a -> flags_clear b.
-Proof. intros a b E F i. unfold sctx. rewrite <- E. apply F. Qed.
-
 Lemma R_same : forall t a b, R t a -> s_pool b = s_pool a -> s_stack b = s_stack a -> s_toks b = s_toks a -> R t b.
 Proof.
   intros t a b HR E1 E2 E3. constructor; rewrite ?E1, ?E2, ?E3; apply HR.
 Qed.
 
-Definition seg_safe (a : sstate) (ts : list (list op)) : Prop :=
-  (flags_clear a /\ forallb (forallb no_empty_batch_op) ts = true) \/ forallb (forallb nonempty_keys_op) ts = true.
-
-Lemma thread_sim : forall t a ops rest, R t a -> prog_safe a ops ->
+Lemma thread_sim : forall t a ops rest, R t a ->
   check_thread a ops (run_thread t ops ++ rest) = inl rest.
 Proof.
-  intros t a ops rest HR S. unfold check_thread, run_thread.
-  assert (S' : prog_safe (sfork a) ops).
-  { destruct S as [[F N]|K]; [left; split; [|exact N] | right; exact K].
-    apply (flags_same_pool a); [reflexivity | exact F]. }
-  destruct (run_sim ops (fork t) (sfork a) (finish (fst (run (fork t) ops)) ++ bar :: rest) (R_fork t a HR) S')
-    as [R1 [C1 _]].
+  intros t a ops rest HR. unfold check_thread, run_thread.
+  destruct (run_sim ops (fork t) (sfork a) (finish (fst (run (fork t) ops)) ++ bar :: rest) (R_fork t a HR))
+    as [R1 C1].
   destruct (run (fork t) ops) as [t1 out] eqn:RN. cbn [fst snd] in *.
   replace ((out ++ finish t1 ++ [bar]) ++ rest) with (out ++ finish t1 ++ bar :: rest)
     by (rewrite <- !app_assoc; reflexivity).
@@ -181,41 +105,26 @@ Proof.
   subst r1. rewrite (finish_sim t1 a1 (bar :: rest) R1). apply eat_tok_same.
 Qed.
 
-Lemma threads_sim : forall ts t a rest, R t a -> seg_safe a ts ->
+Lemma threads_sim : forall ts t a rest, R t a ->
   check_threads a ts (flat_map (run_thread t) ts ++ rest) = inl rest.
 Proof.
-  induction ts as [|ops ts IH]; intros t a rest HR S; [reflexivity|].
+  induction ts as [|ops ts IH]; intros t a rest HR; [reflexivity|].
   cbn [flat_map check_threads]. rewrite <- app_assoc.
-  assert (S1 : prog_safe a ops /\ seg_safe a ts).
-  { destruct S as [[F N]|K].
-    - cbn in N. apply andb_true_iff in N. destruct N. split; left; split; assumption.
-    - cbn in K. apply andb_true_iff in K. destruct K. split; right; assumption. }
-  destruct S1 as [S1 S2]. rewrite (thread_sim t a ops _ HR S1). apply IH; assumption.
+  rewrite (thread_sim t a ops _ HR). apply IH; assumption.
 Qed.
 
 (* ------------------------------------------------------------------ a whole case *)
-Definition case_safe (m : list op) (ts : list (list op)) : Prop :=
-  (forallb no_empty_batch_op m = true /\ forallb (forallb no_empty_batch_op) ts = true) \/
-  (forallb nonempty_keys_op m = true /\ forallb (forallb nonempty_keys_op) ts = true).
-
-Lemma flags_init : flags_clear sstate0.
-Proof. intros [|[|i]]; reflexivity. Qed.
-
-Theorem check_case_model : forall m ts, case_safe m ts -> check_case m ts (run_case m ts) = [].
+Theorem check_case_model : forall m ts, check_case m ts (run_case m ts) = [].
 Proof.
-  intros m ts S. unfold check_case, run_case.
-  assert (S0 : prog_safe sstate0 m).
-  { destruct S as [[N _]|[K _]]; [left; split; [apply flags_init | exact N] | right; exact K]. }
+  intros m ts. unfold check_case, run_case.
   set (tail := fun st : tstate => flat_map (run_thread st) ts ++ (TZ (cur_idx st) :: sep :: finish st) ++ [bar]).
-  destruct (run_sim m tstate0 sstate0 (bar :: tail (fst (run tstate0 m))) R_init S0) as [R1 [C1 F1]].
+  destruct (run_sim m tstate0 sstate0 (bar :: tail (fst (run tstate0 m))) R_init) as [R1 C1].
   destruct (run tstate0 m) as [t1 out] eqn:RN. cbn [fst snd] in *.
   change (out ++ bar :: flat_map (run_thread t1) ts ++ (TZ (cur_idx t1) :: sep :: finish t1) ++ [bar])
     with (out ++ bar :: tail t1).
   destruct (check_ops sstate0 m (out ++ bar :: tail t1)) as [a1 r1] eqn:CK. cbn [fst snd] in *. subst r1.
   rewrite eat_tok_same. unfold tail.
-  assert (S2 : seg_safe a1 ts).
-  { destruct S as [[N1 N2]|[K1 K2]]; [left; split; [apply F1; [apply flags_init | exact N1] | exact N2] | right; exact K2]. }
-  rewrite (threads_sim ts t1 a1 _ R1 S2).
+  rewrite (threads_sim ts t1 a1 _ R1).
   set (a2 := match ts with [] => a1 | _ :: _ => after_join a1 end).
   assert (R2 : R t1 a2).
   { unfold a2. destruct ts; [exact R1 | apply (R_same t1 a1); [exact R1 | reflexivity | reflexivity | reflexivity]]. }
@@ -225,19 +134,20 @@ Qed.
 
 (* on the wire: whatever case line parses *)
 Theorem model_meets_spec_wire : forall l m ts,
-  parse_case l = Some (m, ts) -> case_safe m ts -> run_spec l (run_model l) = [].
-Proof. intros l m ts P S. unfold run_spec, run_model. rewrite P. apply check_case_model. exact S. Qed.
+  parse_case l = Some (m, ts) -> run_spec l (run_model l) = [].
+Proof. intros l m ts P. unfold run_spec, run_model. rewrite P. apply check_case_model. Qed.
 
 Example model_meets_spec_nonvacuous :
   exists m ts, parse_case [tag "SV"; TZ 0; TB [x6b]; tag "i"; TZ 5; tag ";"; tag "AT"; TZ 1; tag "|"; tag "CUR"] = Some (m, ts)
-               /\ case_safe m ts /\ m <> [] /\ ts <> [].
-Proof. eexists. eexists. split; [vm_compute; reflexivity|]. split; [left; split; reflexivity|]. split; discriminate. Qed.
+               /\ m <> [] /\ ts <> [].
+Proof. eexists. eexists. split; [vm_compute; reflexivity|]. split; discriminate. Qed.
 
-(* finding F20: an empty SetValues batch shadows an existing binding of the empty key - the model reproduces the
-   code, the SPEC (same bindings as the parent) rejects it *)
+(* regression for finding F20 (repaired in 4bc3189): an empty SetValues batch used to shadow an existing binding of the
+   empty key; the witness program is now accepted and the empty key still answers *)
 Definition f20_witness : list tok :=
   [tag "SV"; TZ 0; TB []; tag "i"; TZ 5; tag ";"; tag "SVS"; TZ 1; TZ 0; tag ";"; tag "HK"; TZ 2; TB []].
 
-Theorem setvalues_empty_batch_refuted_witness :
-  run_spec f20_witness (run_model f20_witness) = fail "setvalues_empty_batch:empty_key_shadowed".
-Proof. vm_compute. reflexivity. Qed.
+Example f20_witness_accepted :
+  run_spec f20_witness (run_model f20_witness) = [] /\
+  run_model f20_witness = [sep; sep; TZ 1%Z; sep; bar; TZ 0%Z; sep; sep; bar].
+Proof. vm_compute. split; reflexivity. Qed.
